@@ -20,7 +20,7 @@ CORRESPONDENCE = "stored position numbers and re-read layout == CanVerif.emitPos
 
 
 def gen(rng, tier, shard, nshards, rich=False):
-    total = {"quick": 260, "thorough": 4000}[tier] // nshards + 1
+    total = {"quick": 1000, "thorough": 8000}[tier] // nshards + 1
     for _ in range(total):
         fmt = rng.choice(R.FORMATS)
         wn, rn = "lsb", "lsb"
